@@ -53,15 +53,19 @@ class StaticField(Field):
             odxraise(f"Value for static field '{self.short_name}' "
                      f"must be a list of size {self.fixed_number_of_items}")
 
+        # the items of a static field always occupy ITEM-BYTE-SIZE
+        # bytes, i.e., they are potentially followed by padding. Thus
+        # none of them (including the last one) is located at the end
+        # of the PDU: objects which are terminated by the end of the
+        # PDU must exhibit their termination sequence, else the
+        # padding would be considered to be part of their value when
+        # decoding.
         orig_is_end_of_pdu = encode_state.is_end_of_pdu
         encode_state.is_end_of_pdu = False
-        for i, val in enumerate(physical_value):
+        for val in physical_value:
             if not isinstance(val, dict):
                 odxraise(f"The individual parameter values for static field '{self.short_name}' "
                          f"must be dictionaries for structure '{self.structure.short_name}'")
-
-            if i == len(physical_value) - 1:
-                encode_state.is_end_of_pdu = orig_is_end_of_pdu
 
             pos_before = encode_state.cursor_byte_position
             self.structure.encode_into_pdu(val, encode_state)
